@@ -128,6 +128,17 @@ def digest(spec):
     return int.from_bytes(hashlib.blake2b(repr(spec).encode(), digest_size=8).digest(), "big")
 
 
+def mix(i, p, k, salt=0):
+    """deterministic, well mixed choice in range(k) for case index i and leaf position p (splitmix64 finaliser)"""
+    x = (i * 0x9E3779B97F4A7C15 + p * 0xBF58476D1CE4E5B9 + salt * 0x94D049BB133111EB + 0x1234567) & 0xFFFFFFFFFFFFFFFF
+    x ^= x >> 30
+    x = (x * 0xBF58476D1CE4E5B9) & 0xFFFFFFFFFFFFFFFF
+    x ^= x >> 27
+    x = (x * 0x94D049BB133111EB) & 0xFFFFFFFFFFFFFFFF
+    x ^= x >> 31
+    return x % k
+
+
 # ------------------------------------------------------------------------------------------------- construction
 _CLASSES = None
 
